@@ -94,6 +94,14 @@ def cms(repo, chk):
     chk.expect(in_loop and not conditional and inc_ok, 'C15.2c', 'R13', add_s.site(st), ast.unparse(st), 'exactly one cell per row is incremented, by the weight delta, unconditionally',
                'each row must get exactly `+= delta` at one cell, unconditionally (conservation: row sum = total weight; never below the true weight)')
 
+    # an item added without an explicit weight counts once
+    for f in (add_s, add, repo.func(CMS, 'CountMinSketch.batch_add')):
+        dv = f.node.args.defaults
+        pn = f.params
+        dd = dict(zip(pn[len(pn) - len(dv):], dv))
+        k = [x for x in dd if x == 'delta']
+        okd = bool(k) and isinstance(dd[k[0]], ast.Constant) and dd[k[0]].value == 1
+        chk.expect(okd, 'C15.2f', 'R8', f.site(), f'{f.qualname}(..., delta={ast.unparse(dd[k[0]]) if k else None})', 'default weight of an update is 1', 'the default weight (delta) of an update must be 1: otherwise add(x) accumulates a weight other than the one occurrence it stands for')
     # query
     qx = [q for q in query.params if q != 'self'][0]
     rets = [n for n in own_nodes(query.node) if isinstance(n, ast.Return)]
